@@ -333,6 +333,12 @@ class PSY_C_API ExtPSY_QuantifiedTypeSpecifierSyntax : public SpecifierSyntax
 {
     AST_NODE_1K(ExtPSY_QuantifiedTypeSpecifier, Specifier)
 
+public:
+    SyntaxToken quantifierToken() const { return tokenAtIndex(quantifierTkIdx_); }
+    SyntaxToken openParenthesisToken() const { return tokenAtIndex(openParenTkIdx_); }
+    SyntaxToken identifierToken() const { return tokenAtIndex(identTkIdx_); }
+    SyntaxToken closeParenthesisToken() const { return tokenAtIndex(closeParenTkIdx_); }
+
 private:
     LexedTokens::IndexType quantifierTkIdx_ = LexedTokens::invalidIndex();
     LexedTokens::IndexType openParenTkIdx_ = LexedTokens::invalidIndex();
